@@ -15,32 +15,35 @@ import (
 )
 
 type ChainCfg struct {
-	Prop         string
-	LayoutDSSE   bool
-	LinkDSSE     bool
-	NSteps       int
-	Depth        int      // levels of sublayouts below this one
-	PopKinds     []string // extra link files per step are drawn from these kinds
-	ExtraPerStep int
-	Thresholds   []int
-	Alter        string // C01 alteration ("" = none)
-	Prime        bool   // C01: verify the authentic layout first, in the same process
-	ShortPct     int    // chance (percent) that a step gets one honest link too few (default 8)
-	SurplusPct   int    // chance (percent) that a step gets one honest link more than its threshold
-	Expiry       string // "" = far future
-	Inspections  []string
-	DirEdit      string // "", "add", "remove", "modify"
-	Entry        string // "plain" | "withdir"
-	RunDirState  string
-	Params       map[string]string
-	RuleStyle    int // 0 strict (MATCH + DISALLOW *), 1 lenient (ALLOW *), 2 random
-	CertSteps    bool
-	Differ       bool // C05: make one counted link disagree
-	Marker       string
-	RunDir       string
-	Repeat       bool // run the implementation several times per case (map iteration order)
-	Degenerate   bool // C15: odd layouts (empty rules, missing keys)
-	ParamRules   bool // C10: product rules carry {PAT} markers
+	Prop          string
+	LayoutDSSE    bool
+	LinkDSSE      bool
+	NSteps        int
+	Depth         int      // levels of sublayouts below this one
+	PopKinds      []string // extra link files per step are drawn from these kinds
+	ExtraPerStep  int
+	Thresholds    []int
+	Alter         string // C01 alteration ("" = none)
+	Prime         bool   // C01: verify the authentic layout first, in the same process
+	ShortPct      int    // chance (percent) that a step gets one honest link too few (default 8)
+	SurplusPct    int    // chance (percent) that a step gets one honest link more than its threshold
+	EmptyLastPct  int    // chance (percent) that the last step of a multi-step layout reports no products
+	SubExpiredPct int    // chance (percent) that a sublayout carries an expired / unparseable expiry
+	AltAlgPct     int    // chance (percent) that all links of the LAST top-level step record their products under sha512 only
+	Expiry        string // "" = far future
+	Inspections   []string
+	DirEdit       string // "", "add", "remove", "modify"
+	Entry         string // "plain" | "withdir"
+	RunDirState   string
+	Params        map[string]string
+	RuleStyle     int // 0 strict (MATCH + DISALLOW *), 1 lenient (ALLOW *), 2 random
+	CertSteps     bool
+	Differ        bool // C05: make one counted link disagree
+	Marker        string
+	RunDir        string
+	Repeat        bool // run the implementation several times per case (map iteration order)
+	Degenerate    bool // C15: odd layouts (empty rules, missing keys)
+	ParamRules    bool // C10: product rules carry {PAT} markers
 }
 
 type Level struct {
@@ -168,6 +171,12 @@ func (g *chainGen) buildLevel(depth int, initial Files, signers []*TestKey, name
 		if len(prods) == 0 {
 			prods = genFiles(rng, 1)
 		}
+		if cfg.EmptyLastPct > 0 && top && i == nsteps-1 && nsteps > 1 && rng.Chance(cfg.EmptyLastPct) {
+			// the last step reports NO products: the summary must carry exactly that (seeded change
+			// c05-summary-skips-empty-last-step)
+			prods = Files{}
+			lv.Feat = append(lv.Feat, "empty-last")
+		}
 		cmd := []any{"build", name}
 		pubkeys := []any{}
 		for _, f := range fs {
@@ -253,6 +262,13 @@ func (g *chainGen) buildLevel(depth int, initial Files, signers []*TestKey, name
 			files[name+"."+infix+".link"] = WriteJ(tree, nil, false)
 		}
 		sublayoutDone := false
+		altAlg := cfg.AltAlgPct > 0 && top && i == nsteps-1 && depth == 0 && rng.Chance(cfg.AltAlgPct)
+		if altAlg {
+			// the final products are recorded by the last step under ANOTHER algorithm than the one
+			// inspections use: nothing can be compared, so nothing may be taken as equal
+			// (seeded change c09-hashobj-disjoint-algs)
+			lv.Feat = append(lv.Feat, "alt-alg")
+		}
 		for k := 0; k < honest; k++ {
 			f := fs[k]
 			p := prods
@@ -294,7 +310,11 @@ func (g *chainGen) buildLevel(depth int, initial Files, signers []*TestKey, name
 				lv.Feat = append(lv.Feat, sub.Feat...)
 				continue
 			}
-			put(shortID(f.ID), g.wrapSign(tweakAlg(linkTree(name, mats, p, cmd), algTweak), cfg.LinkDSSE, []sigSpec{{key: f}}))
+			lt := tweakAlg(linkTree(name, mats, p, cmd), algTweak)
+			if altAlg {
+				lt = lt.Set("products", p.artsAlg("sha512"))
+			}
+			put(shortID(f.ID), g.wrapSign(lt, cfg.LinkDSSE, []sigSpec{{key: f}}))
 		}
 		extra := cfg.ExtraPerStep
 		if certNeeded {
@@ -438,6 +458,13 @@ func (g *chainGen) buildLevel(depth int, initial Files, signers []*TestKey, name
 		expires = ""
 	} else if expires == "" || !top {
 		expires = time.Now().Add(24 * 365 * time.Hour).UTC().Format("2006-01-02T15:04:05Z")
+		if !top && cfg.SubExpiredPct > 0 && rng.Chance(cfg.SubExpiredPct) {
+			// an otherwise flawless sublayout that has expired (or carries no parseable date) under a
+			// root layout that has not: "verified like a root layout" includes the expiry
+			// (seeded change c08-sublayout-expiry-skipped)
+			expires = rng.Pick([]string{"1999-01-01T00:00:00Z", "2020-06-30T12:00:00Z", "", "2999-01-01"})
+			lv.Feat = append(lv.Feat, "sub-expired")
+		}
 	}
 	layout := O("_type", "layout", "steps", steps, "inspect", insps, "keys", keys)
 	if len(rootcas) > 0 {
